@@ -161,15 +161,27 @@ void prop_sketch(const Case& cs) {
     uint8_t lg_k = static_cast<uint8_t>(5 + cfg % 9);
     float p = (cfg / 16) % 3 == 0 ? 1.0f : (cfg / 16) % 3 == 1 ? 0.5f : 0.05f;
     if (fam == 0) {
-      auto sk = update_theta_sketch::builder().set_lg_k(lg_k).set_p(p).build();
-      auto sk2 = update_theta_sketch::builder().set_lg_k(lg_k).set_p(p).build();
+      // every resize factor; half of the cases reuse objects that had an earlier life in estimation mode and were reset
+      const auto rf = static_cast<update_theta_sketch::resize_factor>((cfg / 64) % 4);
+      const bool reused = (cfg / 256) & 1;
+      auto sk = update_theta_sketch::builder().set_lg_k(lg_k).set_p(p).set_resize_factor(rf).build();
+      auto sk2 = update_theta_sketch::builder().set_lg_k(lg_k).set_p(p).set_resize_factor(rf).build();
+      if (reused) {
+        for (uint64_t i = 0; i < (40ull << lg_k) / 10; ++i) { sk.update(base + 7777777 + i); sk2.update(base + 9999999 + i); }
+        sk.reset(); sk2.reset();
+        vf::label("theta-reused-after-reset");
+      }
       for (uint64_t i = 0; i < n; ++i) { sk.update(base + i); if (i % 3 != 0) sk2.update(base + i + n / 2); }
       check_interval(sk, "theta", sk.get_estimate());
       est_mode = sk.is_estimation_mode();
       if (!est_mode) VF_CHECK(sk.get_estimate() == static_cast<double>(n), "theta-exact", "exact mode estimate " << sk.get_estimate() << " for " << n << " distinct");
+      // with p = 1 a sketch that has seen at most k distinct items (in this life) cannot have left exact mode
+      if (p == 1.0f && n <= (1ull << lg_k)) VF_CHECK(!est_mode && sk.get_estimate() == static_cast<double>(n) && sk.get_lower_bound(3) == static_cast<double>(n) && sk.get_upper_bound(3) == static_cast<double>(n), "theta-exact-up-to-k",
+                                                     "p = 1, " << n << " distinct items <= k = " << (1ull << lg_k) << ": estimation mode " << est_mode << ", estimate " << sk.get_estimate() << " [" << sk.get_lower_bound(3) << ", " << sk.get_upper_bound(3) << "]" << (reused ? " (object reused after reset)" : ""));
       auto cmp = sk.compact();
       check_interval(cmp, "theta compact", cmp.get_estimate());
-      auto u = theta_union::builder().set_lg_k(lg_k).build();
+      auto u = theta_union::builder().set_lg_k(lg_k).set_resize_factor(rf).build();
+      if (reused) { u.update(sk2); u.update(sk); auto first = update_theta_sketch::builder().set_lg_k(lg_k).build(); for (uint64_t i = 0; i < (40ull << lg_k) / 10; ++i) first.update(base + 5555555 + i); u.update(first); u.reset(); }
       u.update(sk); u.update(sk2);
       auto r = u.get_result();
       check_interval(r, "theta union result", r.get_estimate());
